@@ -159,20 +159,31 @@ func classes(pos []vector3.Float64, tol float64) []int {
 			parent[a] = b
 		}
 	}
-	order := make([]int, n)
-	for i := range order {
-		order[i] = i
+	// exactly equal positions first, in linear time: a broken generator can leave tens of thousands of vertices at
+	// one point, which the pairwise sweep below must never see (it is quadratic in the size of a cluster)
+	first := make(map[[3]float64]int, n)
+	order := make([]int, 0, n)
+	for i, q := range pos {
+		k := [3]float64{q.X() + 0, q.Y() + 0, q.Z() + 0} // +0: -0 and 0 are the same coordinate
+		if j, ok := first[k]; ok {
+			parent[i] = j
+		} else {
+			first[k] = i
+			order = append(order, i)
+		}
 	}
-	sort.Slice(order, func(a, b int) bool { return pos[order[a]].X() < pos[order[b]].X() })
-	for a := 0; a < n; a++ {
-		pa := pos[order[a]]
-		for b := a + 1; b < n; b++ {
-			pb := pos[order[b]]
-			if pb.X()-pa.X() > tol {
-				break
-			}
-			if math.Abs(pa.Y()-pb.Y()) <= tol && math.Abs(pa.Z()-pb.Z()) <= tol {
-				union(order[a], order[b])
+	if tol > 0 {
+		sort.Slice(order, func(a, b int) bool { return pos[order[a]].X() < pos[order[b]].X() })
+		for a := 0; a < len(order); a++ {
+			pa := pos[order[a]]
+			for b := a + 1; b < len(order); b++ {
+				pb := pos[order[b]]
+				if pb.X()-pa.X() > tol {
+					break
+				}
+				if math.Abs(pa.Y()-pb.Y()) <= tol && math.Abs(pa.Z()-pb.Z()) <= tol {
+					union(order[a], order[b])
+				}
 			}
 		}
 	}
